@@ -62,7 +62,8 @@ with open(OUT, "w") as out:
             suite = r.stdout.strip()
         except subprocess.TimeoutExpired:
             suite = "TIMEOUT"
-        if "FAIL: 0" not in suite or "ERROR: 0" not in suite or "PASS: 24" not in suite.replace("  ", " "):
+        norm = re.sub(r"\s+", " ", suite)
+        if "FAIL: 0" not in norm or "ERROR: 0" not in norm or "PASS: 24" not in norm:
             out.write("SUITE-CATCHES [%s] %s\n" % (suite, what)); out.flush()
             run("git -C %s worktree remove --force %s" % (REPO, WT)); continue
         caught = []
